@@ -10,6 +10,7 @@ A (spec -> code): every maximal history is walked through TrainLoss / ValLoss / 
 B (code -> spec): real ml.train runs on a scripted-loss model (SGD-advanced step counter, loss = table[step]),
        recorded through a logging proxy and harness-level wrappers, validated by Trace_TrainLoop.
 """
+import os
 import random
 
 import numpy as np
@@ -155,6 +156,27 @@ def make_train_specs(rng, by_cfg, n):
     return specs
 
 
+def apalache_inductive():
+    """Init => IndInv and IndInv /\\ Next => IndInv' for spec/apalache/StoppingInd.tla; a failure to run is a machinery failure"""
+    import shutil
+    import subprocess
+    import tempfile
+    out = tempfile.mkdtemp(prefix="apa-", dir=tlc.WORK if os.path.isdir(tlc.WORK) else None)
+    res = {}
+    try:
+        for name, args in (("base", ["--init=Init", "--length=0"]), ("step", ["--init=IndInit", "--length=1"])):
+            p = subprocess.run(["apalache-mc", "check", "--cinit=ConstInit", "--inv=IndInv", "--out-dir=" + out] + args + ["StoppingInd.tla"],
+                               cwd=os.path.join(tlc.SPEC, "apalache"), capture_output=True, text=True, timeout=900)
+            txt = p.stdout + p.stderr
+            if "EXITCODE: OK" not in txt:
+                raise RuntimeError("apalache %s obligation not discharged:\n%s" % (name, txt[-1500:]))
+            res[name] = "discharged"
+    finally:
+        shutil.rmtree(out, ignore_errors=True)
+    res["constants"] = "Patience in 0..5, MinDelta in 0..3, losses over all integers, unbounded epochs"
+    return res
+
+
 def main(tier):
     chk = core.Check("C19", tier)
     chk.rule = ("A: every maximal loss history TLC generates x condition class x scalar representation; B: real ml.train "
@@ -185,6 +207,8 @@ def main(tier):
         if not r.ok:
             chk.spec_violation(r, "training-loop design invariant / termination fails in the specification")
     chk.exhaustive = True
+    # unbounded safety of the operational rule: inductive invariant discharged by Apalache (any integer losses, any number of epochs)
+    chk.extra["apalache_inductive_invariant"] = apalache_inductive()
 
     # ---- A: replay ---------------------------------------------------------------------------------
     n_max = 0
